@@ -154,6 +154,17 @@ Theorem C09_vm_refines : forall sf maxh gc s sp o,
   end.
 Proof. exact vm_refines_lemma. Qed.
 
+(* ... and as a refinement over every history of surface operations from the empty heap, whatever the
+   GC-heap term is at each step: [vspec_step] is the map-of-arrays specification extended by "operands
+   that name no buffer are errors (or the surface's two documented no-ops) that change nothing" and
+   "an allocation may be refused by the heap limit, changing nothing" *)
+Theorem C09_vm_refines_history : forall sf maxh os,
+  maxh < USIZE ->
+  Inv (fst (vm_run sf maxh mh_empty os))
+  /\ snd (vspec_run sf sp_empty os (snd (vm_run sf maxh mh_empty os))) = snd (vm_run sf maxh mh_empty os)
+  /\ Sim (fst (vm_run sf maxh mh_empty os)) (fst (vspec_run sf sp_empty os (snd (vm_run sf maxh mh_empty os)))).
+Proof. intros sf maxh os H. exact (vm_refines_history_lemma sf maxh os mh_empty sp_empty H inv_empty sim_empty). Qed.
+
 Theorem C09_vm_history_invariant : forall sf maxh os,
   maxh < USIZE -> Inv (fst (vm_run sf maxh mh_empty os))
   /\ bytes (fst (vm_run sf maxh mh_empty os)) = 8 * live_total (allocs (fst (vm_run sf maxh mh_empty os))).
@@ -347,6 +358,21 @@ Theorem C09_bytes_dead_handle_rejected : forall s h,
   /\ (forall off len, (len <> 0)%Z -> b_step s (BReverse h off len) = (s, BErr))
   /\ (forall i j, b_step s (BSwap h i j) = (s, BErr)).
 Proof. exact b_dead_handle_rejected_lemma. Qed.
+
+(* negative offsets, lengths, indices and sizes are errors that change nothing, for every operation *)
+Theorem C09_bytes_negative_operand_rejected : forall s h,
+  (forall w k be off, (off < 0)%Z -> b_step s (BRead w k be h off) = (s, BErr))
+  /\ (forall w sg be off v, (off < 0)%Z -> b_step s (BWrite w sg be h off v) = (s, BErr))
+  /\ (forall w be off bits, (off < 0)%Z -> b_step s (BWriteF w be h off bits) = (s, BErr))
+  /\ (forall off len v, (off < 0 \/ len < 0)%Z -> b_step s (BFill h off len v) = (s, BErr))
+  /\ (forall so dh doff len, (so < 0 \/ doff < 0 \/ len < 0)%Z -> b_step s (BCopy h so dh doff len) = (s, BErr))
+  /\ (forall off len, (off < 0 \/ len < 0)%Z -> b_step s (BDecode h off len) = (s, BErr))
+  /\ (forall off bs, (off < 0)%Z -> b_step s (BWriteString h off bs) = (s, BErr))
+  /\ (forall st sp nd, (st < 0)%Z -> b_step s (BFind h st sp nd) = (s, BErr))
+  /\ (forall off len, (off < 0 \/ len < 0)%Z -> b_step s (BReverse h off len) = (s, BErr))
+  /\ (forall i j, (i < 0 \/ j < 0)%Z -> b_step s (BSwap h i j) = (s, BErr))
+  /\ (forall n, (n <= 0)%Z -> b_step s (BAlloc n) = (s, BErr) /\ b_step s (BResize h n) = (s, BErr)).
+Proof. exact b_negative_operand_rejected_lemma. Qed.
 
 Theorem C09_bytes_free_makes_stale : forall s h s',
   b_step s (BFree (AInt h)) = (s', BOkUnit) -> get_buf s' (Z.to_N h) = None.
